@@ -330,7 +330,7 @@ class Evolver:
             # productions that once exposed a defect (kept as a standing floor)
             "message-no-typename", "rust-keyword-name", "base-regexp", "empty-struct-property", "request-no-typename",
             "matrix", "same-name-different-nullness", "shared-registration-method", "diamond",
-            "message-regopts-no-params", "explicit-closed-enum", "and-registration-options", "deep-mixin", "confusing-message-names", "exotic-enum-values", "message-map-keys", "marked-everything", "alias-shapes"]
+            "message-regopts-no-params", "explicit-closed-enum", "and-registration-options", "deep-mixin", "confusing-message-names", "exotic-enum-values", "message-map-keys", "marked-everything", "alias-shapes", "declares-response-error"]
     RUST_AND_PYTHON_KEYWORDS = ["in", "for", "as", "if", "else", "while", "continue", "break", "return", "async", "await", "try", "yield"]
 
     MATRIX_PRODUCTIONS = ["base", "ref-struct", "ref-enum", "ref-alias", "array", "map", "tuple", "ornull-first", "ornull-last", "literal",
@@ -480,6 +480,16 @@ class Evolver:
         if focus == "message-regopts-no-params":
             self.e_new_message(is_request=True, registration="own", params=False)
             return self.e_new_message(is_request=False, registration="own", params=False)
+        if focus == "declares-response-error":
+            # the metamodel may come to declare the base protocol's ResponseError itself (same shape as the class every
+            # plugin already ships by hand)
+            if not any(s["name"] == "ResponseError" for s in self.doc["structures"]):
+                self.doc["structures"].append({"name": "ResponseError", "properties": [
+                    {"name": "code", "type": {"kind": "base", "name": "integer"}},
+                    {"name": "message", "type": {"kind": "base", "name": "string"}},
+                    {"name": "data", "type": {"kind": "reference", "name": "LSPAny"}, "optional": True}]})
+                self.edits.append({"edit": "E1-new-structure", "name": "ResponseError", "properties": ["code", "message", "data"]})
+            return
         if focus == "alias-shapes":
             # beyond the listed edit family (it names no alias edits): declared-only aliases of the shapes the committed
             # model already uses - T, T[], T | T[] (either order, T a base type or a structure), a wider union
